@@ -216,3 +216,48 @@ pub fn const_union_programs() -> Vec<String> {
     }
     out
 }
+
+/// a name bound to the value of a conditional whose *taken* branch diverges (`t := if true { break } else { VALUE }`):
+/// the folding pass narrows the name to the diverging branch (static type `!`), and every later use of it is
+/// type-queried on `!`. Parse-totality inputs (C03); the programs are also run (C01 / C02).
+pub fn diverging_branch_programs() -> Vec<String> {
+    let mut values: Vec<&'static str> = Vec::new();
+    for (_, vs) in universe() {
+        for v in vs {
+            if !values.contains(&v) {
+                values.push(v);
+            }
+        }
+    }
+    values.extend([
+        "(1, \"s\")", "(1, 2, 3)", "struct{a := 1}", "struct{a := (1, 2)}", "mut 5", "mut (1, 2)", "[1, 2]~", "() -> int { return 1 }", "(x: int) -> int { return x }",
+        "[(1, 2)]", "((1, 2), 3)", "[mut 1]",
+    ]);
+    let uses = [
+        "a.0", "a.1", "a.a", "a[0]", "a[0:1]", "*a", "a()", "a(1)", "-a", "!a", "a~", "a~ $+", "a $]", "a $+", "a + 1", "1 + a", "a + a", "a == a", "a && true", "a & 1", "a << 1",
+        "a ** 2", "(p, q) := a; p", "(p, q, r) := a; p", "std.len(a)", "[a; 2]", "[0; a]", "[a]", "(a, 1)", "struct{f := a}", "mut a", "a.0.0", "a[0].0", "(*a).0", "a().0", "a.a.0",
+        "for x in a { x }", "if a { 1 }", "while a { break }", "match a { 1 => 1, => 2, }", "match a { x: int => x, => 2, }", "if x: (int, int) = a { x.0 }", "c := mut 1; c = a", "c := mut 1; c += a",
+        "a @ (x: int) -> int { return x }", "a ? (x: int) -> bool { return true }", "a ? int", "a $ 0 (x: int, y: int) -> int { return x }", "[1]~ @ a", "[1]~ $ a (x: int, y: int) -> int { return x }",
+        "g := () -> any { return a.0 }; g()", "g := () -> any { (p, q) := a; return p }; g()",
+    ];
+    // expression uses are also bound to a name and used again (binding asks for the static type of the expression)
+    let mut all_uses: Vec<String> = uses.iter().map(|u| u.to_string()).collect();
+    for u in uses {
+        let statement = u.contains(":=") || ["for ", "if ", "while ", "match "].iter().any(|k| u.starts_with(k));
+        if !statement {
+            all_uses.push(format!("r := {u}; r"));
+            all_uses.push(format!("r := [{u}]; r[0]"));
+        }
+    }
+    let mut out = Vec::new();
+    for v in &values {
+        for u in &all_uses {
+            // in a loop (break / continue) and in a function (return); through if / else-if / match with a constant subject
+            out.push(format!("loop {{ a := if true {{ break }} else {{ {v} }}; {u}; break }}"));
+            out.push(format!("f := () -> any {{ a := if false {{ {v} }} else {{ return 0 }}; {u}; return 1 }}; f()"));
+            out.push(format!("f := () -> any {{ a := match 1 {{ 1 => {{ return 0 }}, => {v}, }}; {u}; return 1 }}; f()"));
+            out.push(format!("for i in [1]~ {{ a := if true {{ continue }} else {{ {v} }}; {u}; }}"));
+        }
+    }
+    out
+}
